@@ -3,7 +3,7 @@
  * (reachability), C06 (finalised exactly once / everything released) and C17 (registry exactness).
  *
  * Ops (one per line): retype m | new h kind cls [target|residue|k base depth (noded: its destructor allocates k objects with ids base..)] | alloc h kind cls | copy h src | store s k t | unstore s k |
- * setat s i t | pushat s i t | popat s i | clear s | stk i h | unstk i | tls k h | untls k | del h | dt h | collect | churn base n |
+ * setat s i t | pushat s i t | popat s i | clear s | stk i h | unstk i | tls k h | untls k | del h | own h | dt h | collect | churn base n |
  * fill base max | many new base n cls | many del base n step | chain h base n how | stop | start | fin | alive h... | dump h |
  * mem h | gcchk | stat | joinlate n (first line only).
  *
@@ -39,7 +39,7 @@ struct NodeM { int64_t id; uint64_t canary; var* side; };
 struct NodeD { int64_t id; uint64_t canary; var out[4]; int64_t nborn; int64_t born_base; int64_t chain_base; int64_t depth; };
 
 struct Led {
-  var ptr; int kind, cls; int dtor; int released; bool used; bool explicit_del; bool unregistered; bool born_td; long seq;
+  var ptr; int kind, cls; int dtor; int released; bool used; bool explicit_del; bool unregistered; bool born_td; bool owned; long seq;
 };
 static volatile int in_teardown = 0;      /* the case's op list is finished: what runs now is the collector's teardown */
 static long alloc_seq = 0;
@@ -483,6 +483,7 @@ static void do_op(char** w, int n) {
     if (led[h].cls is C_MANAGED) { del(p); } else if (led[h].cls is C_ROOT) { del_root(p); } else { del_raw(p); }
     if (is_node(led[h].kind)) { fprintf(out, "dtor=%d", led[h].dtor); }
   }
+  else if (OP("own")) { led[hnd(w[1])].owned = true; }     /* a root object handed to an owning Box: released by the Box's del, not by its own del_root */
   else if (OP("dt")) { fprintf(out, "dtor=%d", led[hnd(w[1])].dtor); }       /* destructor count of an instrumented object */
   else if (OP("collect")) { Cello_Verif_GC_Collect(gc); }
   else if (OP("alloc")) {                /* alloc h kind cls : alloc / alloc_root / alloc_raw without a constructor call */
@@ -637,7 +638,7 @@ static void __attribute__((destructor)) main_mode_report(void) {
     if (not led[i].used or not is_node(led[i].kind)) { continue; }
     if (led[i].born_td) { born_td++; if (led[i].dtor is 0) { born_td_left++; } }
     int want = 1;
-    if (led[i].cls isnt C_MANAGED or led[i].unregistered) { want = led[i].explicit_del ? 1 : 0; }
+    if (led[i].cls isnt C_MANAGED or led[i].unregistered) { want = (led[i].explicit_del or led[i].owned) ? 1 : 0; }
     if (led[i].cls is C_MANAGED) { n_m++; }
     if (led[i].dtor isnt want) { if (led[i].cls is C_MANAGED) { bad_m++; } else { bad_r++; } if (first_bad < 0) { first_bad = i; } }
   }
@@ -706,8 +707,8 @@ int main(int argc, char** argv) {
       /* objects allocated by destructors during the teardown sweep are reported separately (each is one block) */
       if (led[i].born_td) { born_td++; if (led[i].dtor is 0) { born_td_left++; } }
       if (led[i].cls is C_MANAGED and not led[i].unregistered) { n_m++; if (led[i].dtor isnt 1) { bad_m++; if (first_bad < 0) { first_bad = i; } } }
-      else if (led[i].cls is C_MANAGED) { int want = led[i].explicit_del ? 1 : 0; if (led[i].dtor isnt want) { bad_m++; if (first_bad < 0) { first_bad = i; } } }
-      else { int want = led[i].explicit_del ? 1 : 0; if (led[i].dtor isnt want) { bad_r++; if (first_bad < 0) { first_bad = i; } } }
+      else if (led[i].cls is C_MANAGED) { int want = (led[i].explicit_del or led[i].owned) ? 1 : 0; if (led[i].dtor isnt want) { bad_m++; if (first_bad < 0) { first_bad = i; } } }
+      else { int want = (led[i].explicit_del or led[i].owned) ? 1 : 0; if (led[i].dtor isnt want) { bad_r++; if (first_bad < 0) { first_bad = i; } } }
       if (led[i].kind is K_NODEA and led[i].dtor is 1 and led[i].released isnt 1) { bad_m++; if (first_bad < 0) { first_bad = i; } }
     }
     printf("teardown managed=%ld wrong_managed=%ld wrong_rootraw=%ld first=%ld outstanding=%ld born_td=%ld born_td_left=%ld err=[%s]\n",
